@@ -32,6 +32,7 @@ pub enum Op {
     Read { reader: usize },
     Get { view: usize },
     Subscribe { view: usize },
+    SubscribeReader { reader: usize },
     Dispose { ctx: usize },
     Step { k: usize },
     Flush,
@@ -51,6 +52,7 @@ impl Op {
             Op::Read { reader } => json!({"op": "read", "reader": reader}),
             Op::Get { view } => json!({"op": "get", "view": view}),
             Op::Subscribe { view } => json!({"op": "subscribe", "view": view}),
+            Op::SubscribeReader { reader } => json!({"op": "subscribe_reader", "reader": reader}),
             Op::Dispose { ctx } => json!({"op": "dispose", "ctx": ctx}),
             Op::Step { k } => json!({"op": "step", "k": k}),
             Op::Flush => json!({"op": "flush"}),
@@ -72,6 +74,7 @@ impl Op {
             "read" => Op::Read { reader: u("reader") },
             "get" => Op::Get { view: u("view") },
             "subscribe" => Op::Subscribe { view: u("view") },
+            "subscribe_reader" => Op::SubscribeReader { reader: u("reader") },
             "dispose" => Op::Dispose { ctx: u("ctx") },
             "step" => Op::Step { k: u("k") },
             "flush" => Op::Flush,
@@ -183,7 +186,13 @@ pub fn generate(rng: &mut Rng, ows: bool) -> Plan {
                 6 => Op::WriteWired { sig: rng.below(3), l: rng.below(5) },
                 7 => Op::MakeReader { view: rng.below(8), which: rng.below(12) },
                 8 => Op::Read { reader: rng.below(8) },
-                9 => Op::Get { view: rng.below(8) },
+                9 => {
+                    if rng.chance(1, 2) {
+                        Op::SubscribeReader { reader: rng.below(8) }
+                    } else {
+                        Op::Get { view: rng.below(8) }
+                    }
+                }
                 10 => Op::Subscribe { view: rng.below(8) },
                 11 => Op::Dispose { ctx: rng.below(4) },
                 12 => Op::Step { k: 1 + rng.below(3) },
@@ -244,8 +253,10 @@ struct CtxM {
     wired: Option<usize>,
     memo_val: usize,
     pending: Option<usize>,
-    set_since_write: bool,
-    stepped_before_first_set: bool,
+    /// while a wired write is pending: could the effect already have run (any task polled since the write)?
+    ran_possible: bool,
+    /// values the context may legitimately show once the pending effect has certainly run (quiescence)
+    cands: Vec<usize>,
     last_change_tracked: bool,
 }
 
@@ -262,6 +273,12 @@ struct ReaderM {
 struct SubM {
     ctx: usize,
     log: Arc<Mutex<Vec<usize>>>,
+}
+
+struct ReaderSubM {
+    reader: usize,
+    ctx: usize,
+    log: Arc<Mutex<Vec<String>>>,
 }
 
 struct SigM {
@@ -307,6 +324,7 @@ struct Page {
     views: Vec<ViewM>,
     readers: Vec<ReaderM>,
     subs: Vec<SubM>,
+    reader_subs: Vec<ReaderSubM>,
     sigs: Vec<SigM>,
     emitted: Arc<Mutex<Vec<(String, String)>>>,
     cookie_header: String,
@@ -381,6 +399,7 @@ pub fn execute(plan: &Plan, rng: &mut Rng) -> Outcome {
             views: vec![],
             readers: vec![],
             subs: vec![],
+            reader_subs: vec![],
             sigs: vec![],
             emitted: Arc::new(Mutex::new(vec![])),
             cookie_header: header.clone(),
@@ -427,6 +446,21 @@ pub fn execute(plan: &Plan, rng: &mut Rng) -> Outcome {
                                 };
                                 let got = loc_index(ctx.get_locale_untracked());
                                 stats.probe(&format!("main_resolved_from_{src}"));
+                                // the documented equivalent: resolve_locale_with_options(same options) == init(..).get_locale_untracked()
+                                let mut opts2 = I18nContextOptions::<Locale>::default().enable_cookie(*enable_cookie).cookie_options(page.cookie_opts()).ssr_lang_header_getter(page.locale_opts());
+                                if let Some(n) = cookie_name {
+                                    opts2 = opts2.cookie_name(n.clone());
+                                }
+                                match guarded(|| root.with(|| leptos_i18n::locale::resolve_locale_with_options(opts2))) {
+                                    Ok(l) if loc_index(l) == want => stats.probe("resolve_locale_api_checked"),
+                                    Ok(l) => violations.push(Violation {
+                                        property: "C15",
+                                        invariant: "resolve_locale_api",
+                                        signature: format!("resolve_locale_with_options: expected the locale from {src}"),
+                                        detail: format!("Cookie: {:?} (name {name:?}, enabled {enable_cookie}), Accept-Language: {:?} -> expected {}, got {}", page.cookie_header, page.accept, LOCS[want], LOCS[loc_index(l)]),
+                                    }),
+                                    Err(msg) => violations.push(Violation { property: "C15", invariant: "no_panic", signature: "resolve_locale_with_options panicked".into(), detail: msg }),
+                                }
                                 if cookie_value(&page.cookie_header, &name).is_some() && from_cookie.is_none() && *enable_cookie {
                                     stats.probe("invalid_cookie_value_presented");
                                 }
@@ -441,7 +475,7 @@ pub fn execute(plan: &Plan, rng: &mut Rng) -> Outcome {
                                 page.ctxs.push(CtxM {
                                     alive: true, locale: got, parent: None, owner: root.clone(), is_sub: false,
                                     cookie_name: if *enable_cookie { Some(name) } else { None }, history: vec![got], wired: None, memo_val: got,
-                                    pending: None, set_since_write: false, stepped_before_first_set: false, last_change_tracked: true,
+                                    pending: None, ran_possible: false, cands: vec![], last_change_tracked: true,
                                 });
                                 page.views.push(ViewM { ctx: 0, h: fixture::view_root(ctx) });
                             }
@@ -523,7 +557,7 @@ pub fn execute(plan: &Plan, rng: &mut Rng) -> Outcome {
                                 let id = page.ctxs.len();
                                 page.ctxs.push(CtxM {
                                     alive: true, locale: got, parent: parent_idx, owner, is_sub: true, cookie_name: cookie_name.clone(), history: vec![got],
-                                    wired: wired_sig, memo_val: got, pending: None, set_since_write: false, stepped_before_first_set: false, last_change_tracked: true,
+                                    wired: wired_sig, memo_val: got, pending: None, ran_possible: false, cands: vec![], last_change_tracked: true,
                                 });
                                 page.views.push(ViewM { ctx: id, h: fixture::view_root(ctx) });
                                 stats.probe("sub_context_created");
@@ -565,8 +599,10 @@ pub fn execute(plan: &Plan, rng: &mut Rng) -> Outcome {
                         m.locale = l;
                         m.history.push(l);
                         m.last_change_tracked = tracked;
-                        if m.pending.is_some() && !m.set_since_write {
-                            m.set_since_write = true;
+                        if let Some(x) = m.pending {
+                            // if nothing ran since the write the effect is still to come and will override this set;
+                            // otherwise it may already have run, and then this set is final
+                            m.cands = if m.ran_possible { vec![x, l] } else { vec![x] };
                         }
                         if page.views[v].h.kind != "root" {
                             stats.probe("set_through_scoped_view");
@@ -589,8 +625,8 @@ pub fn execute(plan: &Plan, rng: &mut Rng) -> Outcome {
                                     // the initial-locale memo re-evaluates to the signal value; the effect only fires if that differs
                                     if l != c.memo_val {
                                         c.pending = Some(l);
-                                        c.set_since_write = false;
-                                        c.stepped_before_first_set = false;
+                                        c.ran_possible = false;
+                                        c.cands = vec![l];
                                         stats.probe("wired_write_pending_effect");
                                     }
                                 }
@@ -625,6 +661,25 @@ pub fn execute(plan: &Plan, rng: &mut Rng) -> Outcome {
                     }
                     _ => executed = false,
                 },
+                Op::SubscribeReader { reader } => match pick_mod(&page.live_readers(), *reader) {
+                    Some(r) if EFFECTS && page.reader_subs.len() < 6 => {
+                        // a reactive computation built around an accessor created earlier
+                        let c = page.readers[r].ctx;
+                        let read = page.readers[r].r.read.clone();
+                        let log = Arc::new(Mutex::new(vec![]));
+                        let log2 = log.clone();
+                        let owner = page.ctxs[c].owner.clone();
+                        owner.with(|| {
+                            Effect::new(move |_| {
+                                let text = read();
+                                log2.lock().unwrap().push(text);
+                            });
+                        });
+                        page.reader_subs.push(ReaderSubM { reader: r, ctx: c, log });
+                        stats.probe(if page.readers[r].r.tracked { "reactive_computation_around_tracked_accessor" } else { "reactive_computation_around_untracked_accessor" });
+                    }
+                    _ => executed = false,
+                },
                 Op::Dispose { ctx } => {
                     let cands: Vec<usize> = page.live_ctxs().into_iter().filter(|c| page.ctxs[*c].is_sub && page.ctxs[*c].parent.is_some()).collect();
                     match pick_mod(&cands, *ctx) {
@@ -648,8 +703,8 @@ pub fn execute(plan: &Plan, rng: &mut Rng) -> Outcome {
                     let n = sched.steps(*k, rng, &last_panic);
                     stats.polls += n as u64;
                     if n > 0 {
-                        for c in page.ctxs.iter_mut().filter(|c| c.pending.is_some() && !c.set_since_write) {
-                            c.stepped_before_first_set = true;
+                        for c in page.ctxs.iter_mut().filter(|c| c.pending.is_some()) {
+                            c.ran_possible = true;
                         }
                     }
                 }
@@ -661,8 +716,8 @@ pub fn execute(plan: &Plan, rng: &mut Rng) -> Outcome {
                         violations.push(Violation { property: "C16", invariant: "bounded_liveness", signature: "effects did not reach quiescence within 8x live tasks polls".into(), detail: format!("{n} polls, {} tasks still ready", exec::ready_ids().len()) });
                     }
                     if n > 0 {
-                        for c in page.ctxs.iter_mut().filter(|c| c.pending.is_some() && !c.set_since_write) {
-                            c.stepped_before_first_set = true;
+                        for c in page.ctxs.iter_mut().filter(|c| c.pending.is_some()) {
+                            c.ran_possible = true;
                         }
                     }
                     // ---- quiescence: pending wired effects have run
@@ -671,13 +726,7 @@ pub fn execute(plan: &Plan, rng: &mut Rng) -> Outcome {
                             let x = c.pending.unwrap();
                             let view = page.views.iter().find(|v| v.ctx == ci).unwrap();
                             let got = loc_index((view.h.get_untracked)());
-                            let allowed: Vec<usize> = if !c.set_since_write {
-                                vec![x]
-                            } else if !c.stepped_before_first_set {
-                                vec![x] // nothing ran between the write and the set: the effect ran after the set
-                            } else {
-                                vec![x, c.locale]
-                            };
+                            let allowed: Vec<usize> = c.cands.clone();
                             if allowed.contains(&got) {
                                 c.locale = got;
                                 c.history.push(got);
@@ -717,6 +766,25 @@ pub fn execute(plan: &Plan, rng: &mut Rng) -> Outcome {
                                 }
                             } else {
                                 stats.probe("subscriber_may_lag_after_untracked_set");
+                            }
+                        }
+                        // reactive computations built around accessors (`t!`, `t_string!`, `t_display!` must be tracked)
+                        for s in &page.reader_subs {
+                            let c = &page.ctxs[s.ctx];
+                            let r = &page.readers[s.reader].r;
+                            if !c.alive || c.pending.is_some() || !r.tracked || !c.last_change_tracked {
+                                continue;
+                            }
+                            let want = r.template.replace("{L}", LOCS[c.locale]);
+                            let log = s.log.lock().unwrap();
+                            match log.last() {
+                                Some(t) if *t == want => stats.probe("reactive_accessor_caught_up_after_flush"),
+                                other => violations.push(Violation {
+                                    property: "C16",
+                                    invariant: "accessor_tracking",
+                                    signature: format!("a computation built around {} did not re-run after a tracked set and a flush", r.label.rsplit(": ").next().unwrap_or("").split('(').next().unwrap_or("")),
+                                    detail: format!("ctx {} is {}, computation around {} last produced {:?}, expected {want:?}", s.ctx, LOCS[c.locale], r.label, other),
+                                }),
                             }
                         }
                     }
